@@ -3,6 +3,8 @@ import Knut.FactsAgree.TransMapping
 import Knut.FactsAgree.TransQuery
 import Knut.FactsAgree.TransAmountsSum
 import Knut.FactsAgree.TransDate
+import Knut.Generated.Facts
+import Knut.Model.BalanceCmd
 /-!
 # The `journal.Query` that `knut balance` builds (a translated FRAGMENT of `cmd/commands/balance.go` `execute`) is the one the
 model's `Balance.queryPosting` assumes
@@ -298,5 +300,56 @@ theorem query_posting_model (cfg : BalCfg) (cur : String → Bool) (valuation : 
   · have hf' : (cfg.accountFilter p.account.name && cfg.commodityFilter p.commodity) = false := by simpa using hf
     simp only [hf', Bool.false_eq_true, if_false]
     exact ⟨st, rfl, hst, by simp⟩
+
+/-! ### the rest of `execute`, pinned by source text
+
+`execute` as a whole is outside the translated subset (cobra, the registry, the journal builder, the processors as values, bufio).
+`harness/facts_balancecmd.go` extracts from its syntax tree which constructor gets which variables, how those variables are defined,
+how the renderers are filled and which flag sets which field; the expectations below are what `Model/BalanceCmd.lean` assumes.  A
+change of any of these texts in /repo fails the `example`. -/
+
+/-- the processors, in the order of `Balance.dayTxs`/`Balance.day` (check, ComputePrices, Valuate, Filter, CloseAccounts, Query),
+with the variables the model gives them: ONE `valuation` for ComputePrices, Valuate and the query (`cfg.valuation`), ONE
+`partition` for Filter, CloseAccounts and the query's `Align` (`cfg.span`, `cfg.periods`), `r.close` (`cfg.close`), the journal
+builder `j` for the closing days, and the report the query inserts into -/
+example : Knut.Generated.balanceProcessorCalls =
+    [("check.Check", []), ("journal.ComputePrices", ["valuation"]), ("journal.Valuate", ["reg", "valuation"]),
+     ("journal.Filter", ["partition"]), ("journal.CloseAccounts", ["j", "reg", "r.close", "partition"]),
+     ("journal.Query.Into", ["report"])] := rfl
+
+example : Knut.Generated.balanceProcessorOrder = Knut.Generated.balanceProcessorCalls.map Prod.fst := rfl
+
+/-- how these variables are defined: the valuation from the flag, the journal from the path argument, the partition =
+`Multiperiod.Partition` of the journal's period (`BalanceCmd.window` clipped by `newPartition`), the report over the SAME
+partition, the processors run by `j.Build().Process(procs...)` (`Balance.run cfg b.build`), then the renderer -/
+example : Knut.Generated.balanceSetup =
+    [("reg", "registry.New()"), ("valuation, err", "r.valuation.Value(reg)"),
+     ("j, err", "journal.FromPath(cmd.Context(), reg, args[0])"), ("partition", "r.Multiperiod.Partition(j.Period())"),
+     ("report", "balance.NewReport(reg, partition)"), ("procs", "<the processors>"), ("err", "j.Build().Process(procs...)"),
+     ("reportRenderer", "balance.Renderer{…}"), ("out", "bufio.NewWriter(cmd.OutOrStdout())")] := rfl
+
+/-- `BalanceCmd.renderCfg`: valuation, `--show-commodities`, `--sort`, `--diff` -/
+example : Knut.Generated.balanceRendererFields =
+    [("Valuation", "valuation"), ("CommodityDetails", "r.showCommodities.Regex()"),
+     ("SortAlphabetically", "r.sortAlphabetically"), ("Diff", "r.diff")] := rfl
+
+/-- `BalanceCmd.run`: `--csv` chooses the CSV renderer (no options), else the text renderer with `--thousands` and `--digits` -/
+example : Knut.Generated.balanceRendererChoice = ["tableRenderer", "r.csv", "table.CSVRenderer", "table.TextRenderer"] ∧
+    Knut.Generated.balanceCSVRendererFields = [] ∧
+    Knut.Generated.balanceTextRendererFields = [("Color", "r.color"), ("Thousands", "r.thousands"), ("Round", "r.digits")] ∧
+    Knut.Generated.balanceLastStatement = "return tableRenderer.Render(reportRenderer.Render(report), out)" := ⟨rfl, rfl, rfl, rfl⟩
+
+/-- the flags: name, the field of `balanceRunner` it sets, its default -/
+example : Knut.Generated.balanceFlags =
+    [("r.Multiperiod.Setup(c)", "", ""), ("cpuprofile", "r.cpuprofile", "\"\""), ("diff", "r.diff", "false"), ("csv", "r.csv", "false"),
+     ("close", "r.close", "true"), ("sort", "r.sortAlphabetically", "false"), ("show-commodities", "r.showCommodities", "-"),
+     ("val", "r.valuation", "-"), ("map", "r.mapping", "-"), ("remap", "r.remap", "-"), ("account", "r.accounts", "-"),
+     ("commodity", "r.commodities", "-"), ("digits", "r.digits", "0"), ("thousands", "r.thousands", "false"),
+     ("color", "r.color", "true")] := rfl
+
+/-- the same defaults in the model's `BalanceFlags` -/
+example : (({ to := 0 } : BalanceFlags).diff, ({ to := 0 } : BalanceFlags).csv, ({ to := 0 } : BalanceFlags).close,
+    ({ to := 0 } : BalanceFlags).sortAlpha, ({ to := 0 } : BalanceFlags).digits, ({ to := 0 } : BalanceFlags).thousands) =
+    (false, false, true, false, 0, false) := rfl
 
 end Knut.FactsAgree.TransBalanceCmd
